@@ -94,6 +94,7 @@ func c13(r *Report) {
 	c13Version(r)
 	// (5) compensation tables
 	c13Compensation(r, th, rb)
+	c13CreateExistsInTx(r)
 }
 
 // lookupOK: ok results of map lookups (v, ok := m[k]).
@@ -473,4 +474,49 @@ func readCascades(dir string) (map[string][]string, error) {
 		}
 	}
 	return out, nil
+}
+
+// c13CreateExistsInTx: "the subject does not exist yet" is decided inside the transaction that creates it (through the
+// transaction handle), and documents are generated only on that answer.
+func c13CreateExistsInTx(r *Report) {
+	p := r.P
+	const dsub = "vdr/didsubject"
+	rule := "ORDER: Create checks subject existence inside the transactionHelper closure, through the closure's transaction handle"
+	key := "C13.create.exists-check-in-tx"
+	cr := p.Func(dsub, "SqlManager", "Create")
+	if cr == nil {
+		r.Lost(key, rule, "SqlManager.Create not found")
+		return
+	}
+	find := p.FnOrImpl(dsub, "DIDManager", "FindBySubject")
+	if n := len(Calls(cr, find)); n > 0 {
+		r.Bad(key, rule, p.Pos(Calls(cr, find)[0].Pos()), "FindBySubject is called outside the transaction closure")
+		return
+	}
+	cls := ClosureArgs(cr, Fn(dsub, "SqlManager", "transactionHelper"), 1)
+	if len(cls) != 1 {
+		r.Lost(key, rule, fmt.Sprintf("%d transactionHelper closures in Create", len(cls)))
+		return
+	}
+	cl := cls[0]
+	calls := Calls(cl, find)
+	r.Sites += len(calls)
+	if len(calls) != 1 {
+		r.Bad(key, rule, p.Pos(cl.Pos()), fmt.Sprintf("%d FindBySubject calls in the transaction closure (expected 1)", len(calls)))
+		return
+	}
+	recv := StripConv(CallArg(calls[0].Common(), -1))
+	if mi, ok := recv.(*ssa.MakeInterface); ok {
+		recv = mi.X
+	}
+	if u, ok := recv.(*ssa.UnOp); ok && u.Op == token.MUL {
+		recv = StripConv(u.X)
+	}
+	c, ok := recv.(*ssa.Call)
+	if !ok || !Fn(dsub, "", "NewDIDManager").M(c.Common()) || !ParamV("tx").M(c.Common().Args[0]) {
+		r.Bad(key, rule, p.Pos(calls[0].Pos()), "the existence check does not go through NewDIDManager(tx): "+AccessPath(recv, 0))
+		return
+	}
+	r.OK(key, rule, p.Pos(calls[0].Pos()), "NewDIDManager(tx).FindBySubject inside the closure", true)
+	r.Gate(Gate{ID: "C13.create.generate-only-if-absent", Fn: cl, Effect: CallEffect(p.FnOrImpl(dsub, "MethodManager", "NewDocument")), Check: CallCheck(Fn("std:errors", "", "Is"), -1, IsTrue)})
 }
